@@ -693,11 +693,11 @@ var enumContracts = map[string]enumContract{
 }
 
 func enumAtom(fn *Func, a *Atom, ev types.Object, consts []string) bool {
-	if ev == nil || a.E == nil || !a.Pol {
+	if ev == nil || a.E == nil {
 		return false
 	}
 	be, ok := ast.Unparen(a.E).(*ast.BinaryExpr)
-	if !ok || be.Op != token.EQL {
+	if !ok || !((be.Op == token.EQL && a.Pol) || (be.Op == token.NEQ && !a.Pol)) {
 		return false
 	}
 	info := fn.Info()
